@@ -166,6 +166,25 @@ def run_case(case):
         i = np.unravel_index(int(np.argmax(d)), d.shape)
         viol.append({"what": "differs_from_published_closed_form", "params": dict(zm=zm, z0=z0, ws=ws, ustar=ustar, L=L, sigma_v=sigma_v),
                      "res": res, "wd": wd, "cell": i, "got": float(ffm[i]), "expected": float(ref[i]), "rel": rel})
+    # the same height and stability with another wind / friction velocity / roughness, in the same process, and then the first
+    # parameters again: every call must be the closed form of ITS OWN arguments (no state carried between calls)
+    ws_b, us_b, z0_b = float(ws * rng.uniform(1.3, 2.0)), float(ustar * rng.uniform(0.5, 0.8)), float(z0 * rng.uniform(0.2, 5.0))
+    z0_b = min(z0_b, 0.2 * zm)
+    Pb = km_params(zm, z0_b, ws_b, us_b, L)
+    if Pb["U"] > 0:
+        for lab, (z0x, wsx, usx, Px) in (("second", (z0_b, ws_b, us_b, Pb)), ("first_again", (z0, ws, ustar, P))):
+            try:
+                _, _, fb = call(zm, z0x, wsx, usx, L, sigma_v, dom, res, mxy, wd=wd)
+            except Warning:
+                continue
+            refb = km_oracle(Px, sigma_v, al, cr, res)
+            db = np.abs(fb - refb)
+            db[amb] = 0
+            relb = float(db.max() / (float(refb.max()) or 1.0))
+            resid["closed_form_rel"] = max(resid["closed_form_rel"], relb)
+            if relb > 1e-10:
+                viol.append({"what": "differs_from_published_closed_form", "history": f"{lab} call with the same zm and L, other ws/ustar/z0",
+                             "params": dict(zm=zm, z0=z0x, ws=wsx, ustar=usx, L=L, sigma_v=sigma_v), "rel": relb})
     if (ffm < 0).any():
         viol.append({"what": "negative_cell", "min": float(ffm.min())})
     if (ffm[(al < -1e-9 * half)] != 0).any():
